@@ -442,7 +442,7 @@ pub fn run(args: &Args, out: &mut Out, kind: &str) {
         config.insert("global_usage".to_owned(), toml::value::Value::Table(t));
         let c = Checker::new(CheckerConfig { config, ..CheckerConfig::default() }, custom.clone()).unwrap();
         (custom, c)
-    } else if kind == "c13r" {
+    } else if kind == "c13r" || kind == "c14r" {
         let rb = StandardLibrary::roblox_base();
         let c = Checker::new(CheckerConfig::default(), rb.clone()).unwrap();
         (rb, c)
@@ -452,12 +452,14 @@ pub fn run(args: &Args, out: &mut Out, kind: &str) {
     };
     const PROLOGUE_R: &str = "local function _verif_prologue_r(vx)\n  local c = Color3.new(255, 0, 0)\n  local c2 = Color3.new(1, 0.5, 0)\n  local u = UDim2.new(1, 0, 1, 0)\n  local u2 = UDim2.new(0, 5, 0, 5)\n  local u3 = UDim2.new(1, 2)\n  local u4 = UDim2.new(0.5, 0, 0.5, 0)\n  return c, c2, u, u2, u3, u4, vx\nend\n";
     const PROLOGUE: &str = "local function _verif_prologue(vx, vy)\n  if type(vx == \"string\") then end\n  local _o = oldvalue\n  print(oldvalue, vx)\n  oldfn(vx, vy)\n  depr_param(nil, vx)\n  depr_param(vx)\n  _G.allowed_name = vx\n  _G.other_name = vy\n  if vx == 0/0 then end\n  return lib.oldfield, oldvalue\nend\n";
-    let corpus = format!("/verif/corpus/{}", if kind == "c13r" { "c13" } else { kind });
+    let corpus = format!("/verif/corpus/{}", if kind == "c13r" { "c13" } else if kind == "c14r" { "c14" } else { kind });
+    let rel = if kind == "c13r" { "c13" } else if kind == "c14r" { "c14" } else { kind };
+    let is_c14 = kind == "c14" || kind == "c14r";
     for (origin, src) in programs(args, out, &mut rng, &corpus) {
         // filter comments stay where they are (the trivia twin only *adds* blanks and ordinary comments, also between
         // a filter comment and the code it precedes); the renaming twin leaves such files alone
         if src.contains("selene:") {
-            if kind == "c14" {
+            if is_c14 {
                 out.bump("skipped_has_filter_comments");
                 continue;
             }
@@ -467,6 +469,8 @@ pub fn run(args: &Args, out: &mut Out, kind: &str) {
             format!("{PROLOGUE}{src}")
         } else if kind == "c13r" {
             format!("{PROLOGUE_R}{src}")
+        } else if kind == "c14r" {
+            format!("{PROLOGUE_R}{src}")
         } else {
             src
         };
@@ -475,7 +479,7 @@ pub fn run(args: &Args, out: &mut Out, kind: &str) {
             Err(_) => continue,
         };
         let (chunk, supported, d) = astdump::dump(&ast);
-        if kind == "c14" && !supported {
+        if is_c14 && !supported {
             // the renamer needs every variable-position token, i.e. a fully dumped tree
             out.bump("unsupported_syntax");
             continue;
@@ -525,7 +529,7 @@ pub fn run(args: &Args, out: &mut Out, kind: &str) {
             let diags2 = match std::panic::catch_unwind(std::panic::AssertUnwindSafe(|| checker.test_on(&twin_ast))) {
                 Ok(x) => x,
                 Err(_) => {
-                    out.case(&format!("REL.{}", if kind == "c13r" { "c13" } else { kind }), &list(vec![st(&origin), st(&src), st(&twin_src)]), &atom("twin-panicked"));
+                    out.case(&format!("REL.{rel}"), &list(vec![st(&origin), st(&src), st(&twin_src)]), &atom("twin-panicked"));
                     continue;
                 }
             };
@@ -541,7 +545,7 @@ pub fn run(args: &Args, out: &mut Out, kind: &str) {
             let mut v2: Vec<String> = diags2.iter().map(|x| canon(x, &d2, &rename_back)).collect();
             v2.sort();
             let same_tokens = d.tokens.len() == d2.tokens.len()
-                && (kind == "c14" || d.tokens.iter().zip(d2.tokens.iter()).all(|(a, b)| a.4 == b.4));
+                && (is_c14 || d.tokens.iter().zip(d2.tokens.iter()).all(|(a, b)| a.4 == b.4));
             if !same_tokens {
                 // the rewrite was not a pure trivia / spelling change (e.g. a line comment swallowed the inserted text): not a twin
                 out.bump("twin_changed_the_token_sequence");
@@ -551,7 +555,7 @@ pub fn run(args: &Args, out: &mut Out, kind: &str) {
                 out.bump("twin_pairs_with_diagnostics");
             }
             out.case(
-                &format!("REL.{}", if kind == "c13r" { "c13" } else { kind }),
+                &format!("REL.{rel}"),
                 &list(vec![st(&origin), st(&src), st(&twin_src)]),
                 &list(vec![boolean(same_tokens), list(base.0.iter().map(st).collect()), list(v2.iter().map(st).collect())]),
             );
